@@ -387,7 +387,7 @@ class CloserRegistry:
 
     def _all_exits_invoke(self, g: FunctionInfo, pname: str, is_cm: bool, only_exc: bool = False) -> bool:
         an = CloseAnalysis(self.engine, [pname], self, is_cm=is_cm)
-        an.exempt_sync_before_await = only_exc and g.is_async
+        # a callee counts as "closes its argument when it fails" only if that holds for its synchronous set-up failures too (F9)
         out = Interp(an, g).run()
         exits = ([] if only_exc else list(out.ret.items())) + [kv for m in out.exc.values() for kv in m.items()]
         if not exits:
